@@ -27,6 +27,8 @@ pub enum Distractor {
     Typedef(usize),
     /// extra trailing columns on gene rows
     GeneTrailingColumns,
+    /// gene rows end after the last column the loader needs (3 resp. 4 columns)
+    GeneMinimalColumns,
     /// extra tag lines in every stanza (def, synonym, xref, comment containing ": ", alt_id, created_by)
     ExtraTags,
     /// no `data-version` line in the header
@@ -210,8 +212,13 @@ pub fn render(f: &Facts, o: &JaxOpts) -> Rendered {
     for &i in &gorder {
         let a = genes[i];
         let t = a.term.unwrap();
-        g2p.push_str(&format!("{}\t{}\t{}\t{}\t-\tOMIM:243400{}\n", a.id, a.name, hp(t), tname(t), trailing));
-        p2g.push_str(&format!("{}\t{}\t{}\t{}\tOMIM:243400{}\n", hp(t), tname(t), a.id, a.name, trailing));
+        if o.has(&Distractor::GeneMinimalColumns) {
+            g2p.push_str(&format!("{}\t{}\t{}\n", a.id, a.name, hp(t)));
+            p2g.push_str(&format!("{}\t{}\t{}\t{}\n", hp(t), tname(t), a.id, a.name));
+        } else {
+            g2p.push_str(&format!("{}\t{}\t{}\t{}\t-\tOMIM:243400{}\n", a.id, a.name, hp(t), tname(t), trailing));
+            p2g.push_str(&format!("{}\t{}\t{}\t{}\tOMIM:243400{}\n", hp(t), tname(t), a.id, a.name, trailing));
+        }
     }
     Rendered { obo, hpoa, genes_to_phenotype: g2p, phenotype_to_genes: p2g }
 }
